@@ -121,21 +121,21 @@ def uFindStatsRef (E : GazeOps T G R Shape Sub) (S : StatsOps T R Shape) (lvl : 
   let std := S.sqrt (S.fillWhereLt (E.sub (S.uniformBlur (E.mul lvl lvl) ps) (E.mul means means)) (E.lit "1e-07") (E.lit "1e-07"))
   if S.anyNan means then none else if S.anyNan std then none else some (means, std)
 
-def uInnerRef (E : GazeOps T G R Shape Sub) (S : StatsOps T R Shape) (pyr : List (PyrLevel T)) (ps : R) (l : Nat) (os : List T) (o : Nat) :
-    Option (List T) := do
+def uInnerRef (E : GazeOps T G R Shape Sub) (S : StatsOps T R Shape) (pyr : List (PyrLevel T)) (l : Nat) (st : List T × R) (o : Nat) :
+    Option (List T × R) := do
   let lv ← pyr[l]?
   let b ← lv.b
   let x ← b[o]?
-  let r ← uFindStatsRef E S x ps
-  pure (os ++ [r.1] ++ [r.2])
+  let r ← uFindStatsRef E S x st.2
+  pure (st.1 ++ [r.1] ++ [r.2], st.2)
 
 /-- one level: all its bands with the current pooling size, which is then halved -/
-def uOuterRef (E : GazeOps T G R Shape Sub) (S : StatsOps T R Shape) (pyr : List (PyrLevel T)) (st : R × List T) (l : Nat) :
-    Option (R × List T) := do
+def uOuterRef (E : GazeOps T G R Shape Sub) (S : StatsOps T R Shape) (pyr : List (PyrLevel T)) (st : List T × R) (l : Nat) :
+    Option (List T × R) := do
   let lv ← pyr[l]?
   let b ← lv.b
-  let os ← (List.range b.length).foldlM (uInnerRef E S pyr st.1 l) st.2
-  pure (S.divNat st.1 2, os)
+  let st' ← (List.range b.length).foldlM (uInnerRef E S pyr l) st
+  pure (st'.1, S.divNat st'.2 2)
 
 def uStatsRefTail (E : GazeOps T G R Shape Sub) (S : StatsOps T R Shape) (cfg : MetamericLossUniformCfg R)
     (pm : SpatialSteerablePyramidSelf) (image : T) (pooling_size : Nat) : Option (List T) := do
@@ -143,10 +143,10 @@ def uStatsRefTail (E : GazeOps T G R Shape Sub) (S : StatsOps T R Shape) (cfg : 
   let lv0 ← pyr[0]?
   let h ← lv0.h
   let r ← uFindStatsRef E S h (S.ofNat pooling_size)
-  let st ← (List.range (pyr.length - 1)).foldlM (uOuterRef E S pyr) (S.ofNat pooling_size, [r.1, r.2])
+  let st ← (List.range (pyr.length - 1)).foldlM (uOuterRef E S pyr) ([r.1, r.2], S.ofNat pooling_size)
   let last ← pyLast pyr
   let ll ← last.l
-  pure (st.2 ++ [ll])
+  pure (st.1 ++ [ll])
 
 /-- `MetamericLossUniform.calc_statsmaps(image, pooling_size)` of an object that keeps nothing between calls: (statistics, pyramid maker) -/
 def uStatsRef (E : GazeOps T G R Shape Sub) (S : StatsOps T R Shape) (cfg : MetamericLossUniformCfg R) (device : Nat) (image : T)
